@@ -219,7 +219,7 @@ int main(int argc, char **argv) {
   if (g_nw > 30) g_nw = 30;
   setvbuf(stdout, NULL, _IOFBF, 1 << 20);
   snprintf(cmd, sizeof(cmd), "rm -rf '%s'", argv[1]);
-  if (system(cmd) != 0) { /* ignore */ }
+  if (!getenv("CONC_KEEP") && system(cmd) != 0) { /* ignore */ }
   sched_seed(sseed);
   sched_mode(mode, 40L * (g_nw + g_nr) * g_nops);
   sched_max_steps(400000L + 4000L * (g_nw + g_nr) * g_nops);
@@ -249,6 +249,6 @@ int main(int argc, char **argv) {
   printf("done steps=%ld switches=%ld\n", sched_now(), sched_switch_count());
   fflush(stdout);
   snprintf(cmd, sizeof(cmd), "rm -rf '%s'", argv[1]);
-  if (system(cmd) != 0) { /* ignore */ }
+  if (!getenv("CONC_KEEP") && system(cmd) != 0) { /* ignore */ }
   return 0;
 }
